@@ -1,5 +1,5 @@
 """L3 worker of gen/c20.py (also used by gen/c19.py): runs the fend binary once
-per request line in a private directory.  Request: <cache-file-hex|-> <expr-hex>
+per request line in a private directory.  Request: <cache-file-hex | E (empty file) | - (no file)> <expr-hex>
 Answer: <exit|hang> <stdout-hex|-> <stderr-hex|-> <=|gone|hex of the cache file afterwards>"""
 import os, shutil, subprocess, sys, tempfile
 
@@ -16,7 +16,7 @@ def main():
             if len(parts) != 2:
                 print('bad-request', flush=True)
                 continue
-            data = None if parts[0] == '-' else bytes.fromhex(parts[0])
+            data = None if parts[0] == '-' else (b'' if parts[0] == 'E' else bytes.fromhex(parts[0]))
             expr = bytes.fromhex(parts[1]).decode('utf-8')
             if data is not None:
                 with open(path, 'wb') as fh:
